@@ -149,21 +149,22 @@ type hRefVerdict struct {
 	value   interface{} // value the match yields: the value present, or the single capture
 }
 
+// hTypeOK: the type keyword on a scalar. No type keyword ("") admits every scalar; words other than
+// string/number/boolean (array, object, ...) admit no scalar.
 func hTypeOK(f Filter, x interface{}) bool {
 	switch x.(type) {
 	case string:
-		return f.Type == "string"
+		return f.Type == "string" || f.Type == ""
 	case float64, int:
-		return f.Type == "number"
+		return f.Type == "number" || f.Type == ""
 	case bool:
-		return f.Type == "boolean"
+		return f.Type == "boolean" || f.Type == ""
 	}
 	return false
 }
 
-// hRefScalar: does scalar x validate against filter f (type AND const AND enum AND pattern; const, enum
-// and pattern apply to strings: a non-string never equals a string const/enum member, pattern only
-// constrains strings).
+// hRefScalar: does scalar x validate against filter f: type AND const AND enum AND pattern. Const, enum and
+// pattern are string valued: a non-string never equals a const/enum member, pattern only constrains strings.
 func hRefScalar(f Filter, x interface{}) hRefVerdict {
 	s, isStr := x.(string)
 	if !hTypeOK(f, x) {
@@ -212,7 +213,7 @@ func hSameSlice(a interface{}, b []interface{}) bool {
 func hFilter() Filter {
 	f := Filter{}
 	vTag("filter_type")
-	switch vChoice(5) {
+	switch vChoice(6) {
 	case 0:
 		f.Type = "string"
 	case 1:
@@ -221,9 +222,12 @@ func hFilter() Filter {
 		f.Type = "boolean"
 	case 3:
 		f.Type = "array"
+	case 4:
+		f.Type = "" // no type keyword
 	default:
-		f.Type = "" // no type keyword (or any other word)
+		f.Type = "object" // any other word
 	}
+	vTag("has_const")
 	if vBool() {
 		c := hStr("const")
 		f.Const = &c
@@ -238,6 +242,7 @@ func hFilter() Filter {
 	default:
 		f.Enum = []string{hStr("enum0"), hStr("enum1")}
 	}
+	vTag("has_pattern")
 	if vBool() {
 		p := "pattern"
 		f.Pattern = &p
@@ -246,56 +251,55 @@ func hFilter() Filter {
 }
 
 // H12b: matchFilter against the reference for every filter shape and every JSON value of depth <= 2.
+//   soundness    (all shapes): match => the value validates against the filter; an array matches only if some
+//                 element does ({type: array} is the only filter an array itself validates against)
+//   completeness (type string/number/boolean or none with at most enum; no null/object inside): validates => match
+//   value        : the value returned is the value present, or the single capture of the pattern
+//   errors       : failing pattern evaluation is an error, never a verdict; no error without a cause
 func H12b() {
 	f := hFilter()
 	supported := f.Type == "string" || f.Type == "number" || f.Type == "boolean"
-	enumMixed := f.Enum != nil && (f.Const != nil || f.Pattern != nil || f.Type != "string")
+	enumMixed := f.Enum != nil && (f.Const != nil || f.Pattern != nil || !(f.Type == "string" || f.Type == ""))
+	patternApplies := f.Pattern != nil && f.Type == "string" && f.Enum == nil
 	vTag("value_kind")
 	kind := vChoice(7)
 	if kind != hKArray {
 		vCover("scalar")
 		x := hJSONScalar(kind, "value")
+		ref := hRefScalar(f, x)
+		if enumMixed {
+			vClass("enum combined with const/pattern/non-string type")
+		}
 		match, result, err := matchFilter(f, x)
 		vAssert(!(match && err != nil), "H12b.match_xor_error: match reported together with an error")
-		ref := hRefScalar(f, x)
+		vAssert(match || result == nil, "H12b.no_match_no_value: a value is returned without a match")
+		vAssert(!match || ref.match, "H12b.scalar_sound: a scalar matches although it does not validate against the filter")
 		if kind == hKNull || kind == hKObject {
 			vCover("null-or-object")
-			vAssert(!match, "H12b.unsupported_value_no_match: null or object value matches a filter")
 			return
 		}
-		if !supported {
-			vCover("other-type")
-			vAssert(!match, "H12b.other_type_scalar_no_match: a filter whose type is not string/number/boolean matches a scalar")
-			return
-		}
-		if enumMixed {
-			// enum together with other keywords: every keyword has to hold (JSON schema); we only demand
-			// that nothing is accepted that the schema rejects
-			vCover("enum-mixed")
-			vClass("enum combined with const/pattern/non-string type")
-			vAssert(!match || ref.match, "H12b.enum_mixed_sound: value matches although a keyword next to enum does not hold")
+		if !supported || enumMixed {
+			vCover("soundness-only")
 			return
 		}
 		if ref.isError {
 			vCover("regex-error")
-			vAssert(err != nil && !match, "H12b.regex_error_reported: failing pattern evaluation (compile/match error, several capture groups) is not reported as error")
+			vAssert(err != nil, "H12b.regex_error_reported: failing pattern evaluation (compile/match error, several capture groups) is not reported as error")
 			return
 		}
 		vAssert(err == nil, "H12b.scalar_no_error: error for a supported scalar value")
-		vAssert(match == ref.match, "H12b.scalar_agrees: verdict on a scalar differs from the JSON-schema reading of the filter")
+		vAssert(match == ref.match, "H12b.scalar_complete: a scalar that validates against the filter does not match")
 		if match {
 			vCover("scalar-match")
-			if f.Pattern != nil && kind == hKString && f.Enum == nil {
+			if patternApplies {
 				vCover("capture")
 			}
 			vAssert(result == ref.value, "H12b.scalar_value: matched value is neither the value present nor the single capture")
-		} else {
-			vAssert(result == nil, "H12b.no_match_no_value: a value is returned without a match")
 		}
 		return
 	}
 
-	// array of 0..2 elements
+	// array of 0..alen elements (scalars, null, object, empty nested array)
 	vCover("array")
 	n := vLen(0, vParam("alen", 2))
 	arr := make([]interface{}, n)
@@ -311,70 +315,64 @@ func H12b() {
 		}
 	}
 	// reference: an array matches iff some element matches
-	anyMatch, anyError, anyUnsupported, anyOfType := false, false, false, false
+	anyMatch, anyError, anyUnsupported := false, false, false
 	refs := make([]hRefVerdict, n)
-	if supported {
-		for i, e := range arr {
-			switch e.(type) {
-			case nil, map[string]interface{}, []interface{}:
-				anyUnsupported = true
-				continue
-			}
-			refs[i] = hRefScalar(f, e)
-			anyMatch = anyMatch || refs[i].match
-			anyError = anyError || refs[i].isError
-			anyOfType = anyOfType || hTypeOK(f, e)
+	for i, e := range arr {
+		switch e.(type) {
+		case nil, map[string]interface{}, []interface{}:
+			anyUnsupported = true
+			continue
 		}
+		refs[i] = hRefScalar(f, e)
+		anyMatch = anyMatch || refs[i].match
+		anyError = anyError || refs[i].isError
 	}
-	if f.Pattern != nil && f.Type == "string" && f.Enum == nil && !anyMatch {
+	arrayItself := f.Type == "array" && f.Const == nil && f.Enum == nil // {type: array}: the array itself validates
+	switch {
+	case enumMixed:
+		vClass("enum combined with const/pattern/non-string type")
+	case patternApplies && (!anyMatch || nested):
 		vClass("array and pattern, no matching element")
-	} else if !anyOfType {
+	case f.Enum == nil && !arrayItself && (!anyMatch || nested):
 		vClass("array without element of the filter's type")
 	}
 	match, result, err := matchFilter(f, arr)
 	vAssert(!(match && err != nil), "H12b.match_xor_error: match reported together with an error")
-	if !supported {
-		vCover("other-type-array")
-		// the only reading under which such a filter can accept an array is {type: array}
-		vAssert(!match || f.Type == "array" && f.Const == nil && f.Enum == nil, "H12b.other_type_array: a filter whose type is neither string/number/boolean nor array matches an array")
-		return
-	}
-	if enumMixed {
-		vCover("enum-mixed")
-		vClass("enum combined with const/pattern/non-string type")
-		vAssert(!match || anyMatch, "H12b.enum_mixed_sound: value matches although a keyword next to enum does not hold")
-		return
-	}
+	vAssert(match || result == nil, "H12b.no_match_no_value: a value is returned without a match")
+	vAssert(!match || anyMatch || arrayItself, "H12b.array_sound: an array matches although no element validates against the filter")
 	if match {
 		vCover("array-match")
-		vAssert(anyMatch, "H12b.array_match_needs_element: an array matches although no element matches the filter")
 		ok := hSameSlice(result, arr)
-		for i, e := range arr {
-			if refs[i].match && !nested {
-				if _, isArr := result.([]interface{}); !isArr && (result == e || result == refs[i].value) {
+		if _, isArr := result.([]interface{}); !isArr {
+			for i, e := range arr {
+				if refs[i].match && (result == e || result == refs[i].value) {
 					ok = true
 				}
 			}
 		}
 		vAssert(ok, "H12b.array_value: matched value is neither the array, a matching element nor its capture")
+	}
+	if !supported || enumMixed || anyUnsupported {
+		vCover("soundness-only")
 		return
 	}
-	vAssert(result == nil, "H12b.no_match_no_value: a value is returned without a match")
 	if err != nil {
 		vCover("array-error")
-		vAssert(anyError || anyUnsupported, "H12b.array_error_has_cause: error although no element is unsupported and no pattern evaluation fails")
+		vAssert(anyError || patternApplies && hReCompileFails(), "H12b.array_error_has_cause: error although no pattern evaluation fails")
 		return
 	}
-	vCover("array-no-match")
-	vAssert(!anyMatch, "H12b.array_element_match_found: an element matches the filter but the array does not")
-	vAssert(!anyError, "H12b.array_regex_error_reported: failing pattern evaluation on an element is not reported as error")
+	if !match {
+		vCover("array-no-match")
+		vAssert(!anyMatch, "H12b.array_complete: an element validates against the filter but the array does not match")
+		vAssert(!anyError, "H12b.array_regex_error_reported: failing pattern evaluation on an element is not reported as error")
+	}
 }
 
 func H12b_twin() {
 	p := "pattern"
 	f := Filter{Type: "string", Pattern: &p}
-	match, v, err := matchFilter(f, []interface{}{hStr("e0"), hStr("e1")})
-	if err == nil && match && hReFindCalls == 2 && v != nil {
+	match, v, err := matchFilter(f, hStr("value"))
+	if err == nil && match && hReFindCalls == 1 && v == "G" {
 		vAssert(false, "H12b_twin.reach: reachable")
 	}
 }
